@@ -78,7 +78,9 @@ def rule_b(ctx):
     if len(loads) < 3:
         raise AnchorLost("Exfiltrator::load impls")
     for l in loads:
-        callers = [(F.inst[c], k) for (c, k, bb) in F.callers().get(l.id, [])]
+        from .nf import boundary_callers
+        direct = [c for (c, k, bb) in F.callers().get(l.id, []) if k == "call"]
+        callers = [(F.inst[c], "call") for c in boundary_callers(F, direct)] if direct else []
         bad = [c.name for c, k in callers if c.id not in next_ids and not re.search(r"Exfiltrator>::load(::\{closure#\d+\})?$", c.name)
                and not any(c.name.startswith(n.name + "::{closure#") for n in nexts)]
         ctx.check(not bad, rid, "load-callers<%s>" % exf_of(l.name), "%s is called only from Pending::next or a delegating load" % l.name.split(" as ")[0][1:].split("::")[-1], l.span, bad)
